@@ -115,6 +115,19 @@ func tags(c *Case, obs *RunObs) ([]string, bool) {
 	if cyc {
 		t = append(t, "cycle")
 	}
+	leaf, inkey := false, false
+	for _, g := range c.Graphs {
+		for _, n := range g.Nodes {
+			leaf = leaf || n.Leaf
+			inkey = inkey || n.InKey > 0
+		}
+	}
+	if leaf {
+		t = append(t, "leaf-output")
+	}
+	if inkey {
+		t = append(t, "input-key")
+	}
 	if c.NoID {
 		t = append(t, "no-id")
 	}
